@@ -155,6 +155,10 @@ def run(repo: Repo, chk: Check, thorough: bool = False) -> None:
                 return True
             if call_name(e) == 'cast' and len(e.args) == 2:
                 return clean(e.args[1], f, depth + 1)
+            # `mapping.get(name)` reads an entry of the mapping (or None)
+            if call_name(e) == 'get' and isinstance(e.func, ast.Attribute) and isinstance(e.func.value, ast.Name) and 1 <= len(e.args) <= 2 and \
+                    (len(e.args) == 1 or clean(e.args[1], f, depth + 1)):
+                return clean(e.func.value, f, depth + 1)
             # a helper of the same module all of whose returns are clean
             cands = [g for g in scope if g.name == call_name(e)]
             if cands and all(any(isinstance(n, ast.Return) for n in g.walk()) and
@@ -170,8 +174,11 @@ def run(repo: Repo, chk: Check, thorough: bool = False) -> None:
                     return (g.qn, e.id) in clean_params
                 vals = [n.value for n in g.walk() if isinstance(n, (ast.Assign, ast.AnnAssign)) and n.value is not None and
                         any(isinstance(t, ast.Name) and t.id == e.id for t in (n.targets if isinstance(n, ast.Assign) else [n.target]))]
+                # a mapping filled entry by entry: `m = {}` ... `m[k] = v`
+                stores = [n.value for n in g.walk() if isinstance(n, ast.Assign) and any(isinstance(t, ast.Subscript) and isinstance(t.value, ast.Name) and t.value.id == e.id
+                                                                                       for t in n.targets)]
                 if vals:
-                    return all(clean(v, g, depth + 1) for v in vals)
+                    return all(clean(v, g, depth + 1) for v in vals) and all(clean(v, g, depth + 1) for v in stores)
                 g = g.outer
             return False
         if isinstance(e, ast.Subscript) and isinstance(e.value, ast.Name):
@@ -179,6 +186,8 @@ def run(repo: Repo, chk: Check, thorough: bool = False) -> None:
             return clean(e.value, f, depth + 1)
         if isinstance(e, ast.DictComp):
             return clean(e.value, f, depth + 1)
+        if isinstance(e, ast.Dict) and not e.keys:
+            return True          # the empty mapping: its entries are judged at the stores
         return False
     for _ in range(6):
         before = len(clean_params)
@@ -226,9 +235,25 @@ def run(repo: Repo, chk: Check, thorough: bool = False) -> None:
     # annotations of the signature come from the cleaned mapping
     annv = {k for k, v in local_src.items() if v == 'self._annotations_from_function(node)'}
     akw = next((k.value for c in pc for k in c.keywords if k.arg == 'annotation'), None)
-    av = [n for n in aa.walk() if isinstance(n, ast.Assign) and isinstance(akw, ast.Name) and any(isinstance(t, ast.Name) and t.id == akw.id for t in n.targets)]
-    ok = bool(av) and bool(annv) and all(any(isinstance(x, ast.Name) and x.id in annv for x in ast.walk(n.value)) and
-                                        '_AnnotationValueFormatter' in norm(n.value) for n in av)
+    av = [n for n in aa.walk() if isinstance(n, (ast.Assign, ast.AnnAssign)) and n.value is not None and isinstance(akw, ast.Name) and
+          any(isinstance(t, ast.Name) and t.id == akw.id for t in (n.targets if isinstance(n, ast.Assign) else [n.target]))]
+    # every formatter handed to the signature wraps an entry of the cleaned mapping: `annotations[name]`, or a local read from it (`node = annotations.get(name)`)
+    from ..util import single_value
+
+    def from_mapping(x: ast.AST) -> bool:
+        if isinstance(x, ast.Call) and call_name(x) == 'cast' and len(x.args) == 2:
+            return from_mapping(x.args[1])
+        if isinstance(x, ast.Subscript) and isinstance(x.value, ast.Name) and x.value.id in annv:
+            return True
+        if isinstance(x, ast.Call) and call_name(x) == 'get' and isinstance(x.func, ast.Attribute) and isinstance(x.func.value, ast.Name) and x.func.value.id in annv:
+            return True
+        if isinstance(x, ast.Name):
+            v_ = single_value(aa, x.id)
+            return v_ is not None and from_mapping(v_)
+        return False
+    fmts_a = [c for n in av for c in ast.walk(n.value) if isinstance(c, ast.Call) and call_name(c) == '_AnnotationValueFormatter']
+    ok = bool(av) and bool(annv) and bool(fmts_a) and all(c.args and from_mapping(c.args[0]) for c in fmts_a) and \
+        all(any(c in fmts_a for c in ast.walk(n.value)) or norm(n.value).endswith('.empty') for n in av)
     chk.ob('R14.2', f'{MV}._handleFunctionDef.add_arg :: signature annotations come from _annotations_from_function', ok,
            'annotations[name] of the unstringed mapping' if ok else 'signature annotations bypass the unstringed mapping', aa.loc)
     chk.require('R14.2', 7)
@@ -236,11 +261,31 @@ def run(repo: Repo, chk: Check, thorough: bool = False) -> None:
     # ------------------------------------------------------------------ R14.3
     sg = [c for c in calls_in(hf) if call_name(c) == 'Signature' and c.args]
     rakw = next((k.value for c in sg for k in c.keywords if k.arg == 'return_annotation'), None)
-    ra = [n for n in hf.walk() if isinstance(n, ast.Assign) and isinstance(rakw, ast.Name) and any(isinstance(t, ast.Name) and t.id == rakw.id for t in n.targets)]
-    ok = len(ra) == 1 and isinstance(ra[0].value, ast.IfExp) and 'Parameter.empty' in norm(ra[0].value.body) and \
-        isinstance(ra[0].value.test, ast.BoolOp) and isinstance(ra[0].value.test.op, ast.Or) and \
-        any(isinstance(v, ast.Call) and call_name(v) == 'is_none_literal' for v in ra[0].value.test.values) and \
-        any(isinstance(v, ast.Compare) and isinstance(v.ops[0], ast.Is) and norm(v.comparators[0]) == 'None' for v in ra[0].value.test.values)
+    ra = [n for n in hf.walk() if isinstance(n, (ast.Assign, ast.AnnAssign)) and n.value is not None and isinstance(rakw, ast.Name) and
+          any(isinstance(t, ast.Name) and t.id == rakw.id for t in (n.targets if isinstance(n, ast.Assign) else [n.target]))]
+    # in the scenario "the return annotation is the literal None" no formatter reaches the signature, and the empty marker does - whichever way the
+    # condition is spelled (a conditional expression, or a default followed by an `if`)
+    from ..util import excluded_by
+
+    def none_literal(e: ast.AST) -> Optional[bool]:
+        if isinstance(e, ast.Call) and call_name(e) == 'is_none_literal':
+            return True
+        if isinstance(e, ast.Compare) and len(e.ops) == 1 and isinstance(e.ops[0], ast.Is) and norm(e.comparators[0]) == 'None':
+            return False          # the annotation exists (it is the literal None)
+        return None
+    sites_r = []
+    for n in ra:
+        for c in [c for c in ast.walk(n.value) if isinstance(c, ast.Call) and call_name(c) == '_AnnotationValueFormatter']:
+            facts = list(cfg.dominating_tests(n, raw=True))
+            x_: ast.AST = c
+            for p_ in parents(c):
+                if isinstance(p_, ast.IfExp):
+                    facts.append((p_.test, x_ is p_.body or any(y is x_ for y in ast.walk(p_.body))))
+                if p_ is n:
+                    break
+                x_ = p_
+            sites_r.append(excluded_by(facts, none_literal))
+    ok = bool(ra) and bool(sites_r) and all(sites_r) and any('Parameter.empty' in norm(n.value) for n in ra)
     chk.ob('R14.3', f'{MV}._handleFunctionDef :: `-> None` is omitted', ok, norm(ra[0].value)[:100] if ra else 'return_annotation not found', hf.loc)
     plist = {norm(c.func.value) for c in calls_in(aa) if call_name(c) == 'append' and isinstance(c.func, ast.Attribute)}
     ok = bool(sg) and norm(sg[0].args[0]) in plist and rakw is not None
@@ -279,7 +324,9 @@ def run(repo: Repo, chk: Check, thorough: bool = False) -> None:
     if not ovt:
         chk.error('R14.4: the test recognising @overload was not found')
     for t in ovt:
-        lits = {c.value for cmp_ in t.comparators for c in ast.walk(cmp_) if isinstance(c, ast.Constant) and isinstance(c.value, str)}
+        # (the two names may be hoisted into a module constant)
+        cmp_nodes = [x for cmp_ in t.comparators for x in ([hf.mod.assigns[cmp_.id]] if isinstance(cmp_, ast.Name) and cmp_.id in hf.mod.assigns else [cmp_])]
+        lits = {c.value for cmp_ in cmp_nodes for c in ast.walk(cmp_) if isinstance(c, ast.Constant) and isinstance(c.value, str)}
         want = {'typing.overload', 'typing_extensions.overload'}
         okn = want <= lits and isinstance(t.ops[0], (ast.In, ast.Eq))
         chk.ob('R14.4', f'{MV}._handleFunctionDef :: both spellings of @overload are recognised', okn,
@@ -367,7 +414,26 @@ def run(repo: Repo, chk: Check, thorough: bool = False) -> None:
     else:
         txt = ' ; '.join(norm(s) for s in gd.node.body if not isinstance(s, ast.Assert))
         ip = gd.params()[0].arg
-        ok = any(f'{ip} -= {o}' in txt for o in offv) and any(f'None if {ip} < 0 else {d}[{ip}]' in txt for d in defv)
+        # `index -= offset ; return None if index < 0 else defaults[index]`, or the same through a local `j = index - offset`
+        shifted: Set[str] = set()
+        for n_ in gd.walk():
+            if isinstance(n_, ast.AugAssign) and isinstance(n_.op, ast.Sub) and isinstance(n_.target, ast.Name) and n_.target.id == ip and norm(n_.value) in offv:
+                shifted.add(ip)
+            if isinstance(n_, ast.Assign) and isinstance(n_.value, ast.BinOp) and isinstance(n_.value.op, ast.Sub) and norm(n_.value.left) == ip and \
+                    norm(n_.value.right) in offv:
+                shifted |= {t.id for t in n_.targets if isinstance(t, ast.Name)}
+        ok = False
+        for r_ in [x for x in gd.walk() if isinstance(x, ast.Return) and isinstance(x.value, ast.IfExp)]:
+            ie = r_.value
+            assert isinstance(ie, ast.IfExp)
+            t_ = ie.test
+            none_arm, val_arm = (ie.body, ie.orelse)
+            if isinstance(t_, ast.Compare) and len(t_.ops) == 1 and isinstance(t_.ops[0], ast.GtE):
+                none_arm, val_arm = ie.orelse, ie.body
+            if isinstance(t_, ast.Compare) and len(t_.ops) == 1 and isinstance(t_.ops[0], (ast.Lt, ast.GtE)) and norm(t_.comparators[0]) == '0' and \
+                    norm(t_.left) in shifted and isinstance(none_arm, ast.Constant) and none_arm.value is None and isinstance(val_arm, ast.Subscript) and \
+                    norm(val_arm.value) in defv and norm(val_arm.slice) == norm(t_.left):
+                ok = True
         chk.ob('R14.5', f'{MV}._handleFunctionDef.get_default :: shifted index into defaults, None before the offset', ok, txt[:120], gd.loc)
     loops = [n for n in hf.walk() if isinstance(n, ast.For) and 'enumerate(' in norm(n.iter)]
     ok = any('.args.args' in norm(l.iter) and any(f'start=len({p})' in norm(l.iter).replace(' ', '') for p in posv) for l in loops) and \
